@@ -75,6 +75,18 @@ func (v *Vue) evalInclude(ctx VueContext, node *html.Node, vars map[string]any, 
 	// Identify the component's own v-once elements (compDom is private to this include)
 	assignOnceIDs(name, compDom)
 
+	// A component that is nothing but a <template v-once> wrapper is unwrapped below without
+	// passing the place where v-once elements are looked up: look it up here.
+	if isSoleTemplateRoot(compDom) {
+		if root := significantNodes(compDom)[0]; helpers.HasAttr(root, "v-once") {
+			id := helpers.GetAttr(root, "v-once-id")
+			if ctx.seen[id] {
+				return nil, nil
+			}
+			ctx.seen[id] = true
+		}
+	}
+
 	// Registered shorthand tags work inside component files like in the page itself
 	if err := v.resolveComponentTags(compDom); err != nil {
 		return nil, err
